@@ -38,6 +38,16 @@ class _Wild(object):
 ANY = _Wild()
 
 
+def contains_any(v):
+    if v is ANY:
+        return True
+    if isinstance(v, dict):
+        return any(contains_any(x) for x in v.values())
+    if isinstance(v, list):
+        return any(contains_any(x) for x in v)
+    return False
+
+
 def matches(ref, got):
     """Structural equality of JSON values where ref may contain ANY."""
     if ref is ANY:
@@ -593,6 +603,10 @@ class Interp(object):
             entered = self.t
             self.requests.append(dict(t=self.t, fn=fn, payload=copy.deepcopy(eff), state=name))
             if fn in getattr(self.task, "stateful", ()):
+                if contains_any(eff):
+                    # the behaviour of such a task depends on which payloads it has seen; a payload that carries an implementation-defined
+                    # text (the Cause of a caught error quotes history event ids) is a different payload on every attempt
+                    raise Unspecified("stateful task called with a payload containing implementation-defined text")
                 self.stateful_calls.append((fn, json.dumps(eff, sort_keys=True, default=repr)))
             r = self.task(fn, eff)
             latency = 0.0
